@@ -172,7 +172,7 @@ def check_exit(eng: Engine, contract: Contract, kind, st: State, val, self_ref, 
     # frame: heap cells outside the declared frame are unchanged
     for (oid, fld), cur in st.heap.items():
         old = st.old_heap.get((oid, fld))
-        if old is None or (oid, fld) in frame:
+        if old is None or (oid, fld) in frame or fld in eng.dont_care_fields():
             continue
         if isinstance(cur, Val) and isinstance(old, Val):
             if cur.term is old.term or z3.eq(cur.term, old.term):
